@@ -111,6 +111,16 @@ CHECKS = {
              "the model / a fresh interpreter; (d) conditionals over the truth universe. Exhaustive for (b),(d), exploration for (a),(c).",
         note="Trusted: substitution is evaluated by klongpy itself (plain evaluation as reference); the statement-language model of (c).",
         design="3/C03"),
+    "C04": dict(
+        category="exploration",
+        technique="stateful property-based testing (Hypothesis rule-based state machine, ddmin over the statement list): every statement re-run in a fresh interpreter loaded with a copy of the pre-state, plus a frame condition checked independently",
+        text="Generated histories of assignments, amend / amend-in-depth, derived sub-lists, function definitions and calls, adverb "
+             "expressions, verbatim repetitions, module blocks and dictionary updates; before each statement a fresh interpreter is "
+             "loaded from the canonical pre-state and must give the same result and post-state, and every variable the statement "
+             "does not assign must be unchanged. Exploration-level over histories <= 12 statements.",
+        note="Trusted: state is reloaded from canonical values as literal text and from recorded function sources; the active module "
+             "is restored; self-bound symbols count as undefined; statements reading never-assigned names are not minimised into.",
+        design="3/C04"),
 }
 
 NOT_APPLICABLE = {
